@@ -152,6 +152,112 @@ def extract_options(tree):
     return {"selLo": lo, "selHiOff": off + off2, "muxIndexAttr": idx_attr}
 
 
+WCMP = {ast.Lt: "lt", ast.LtE: "le", ast.Eq: "eq", ast.NotEq: "ne", ast.GtE: "ge", ast.Gt: "gt"}
+WFLIP = {"lt": "gt", "le": "ge", "eq": "eq", "ne": "ne", "ge": "le", "gt": "lt"}
+
+
+def _cmp_const(test, what, msg):
+    """`<what> <cmp> <int>` or `<int> <cmp> <what>` -> (cmp normalised to the first form, int)"""
+    expect(isinstance(test, ast.Compare) and len(test.ops) == 1 and type(test.ops[0]) in WCMP, msg)
+    op = WCMP[type(test.ops[0])]
+    l, r = test.left, test.comparators[0]
+    if what(l):
+        return op, const_int(r)
+    expect(what(r), msg)
+    return WFLIP[op], const_int(l)
+
+
+def extract_options_build(tree):
+    """dict branch of `Options.__init__`: for <opt>, <prob> in opts.items(): type test (raise TypeError); negative
+    test (raise ValueError); skip test (continue); options.append(<opt>); weights.append(<prob>) -- then the empty test
+    raising RejectionException before the selector is made.  Loop variable names are free."""
+    init = get_def(tree, "Options.__init__", DIST)
+    body = body_nodoc(init)
+    br = body[0]
+    expect(isinstance(br, ast.If) and _call_name(br.test) == "isinstance" and is_name(br.test.args[0], "opts")
+           and is_name(br.test.args[1], "dict"), "Options.__init__: if isinstance(opts, dict): ...")
+    loops = [s for s in br.body if isinstance(s, ast.For)]
+    expect(len(loops) == 1, "dict branch: exactly one loop")
+    loop = loops[0]
+    expect(isinstance(loop.target, ast.Tuple) and len(loop.target.elts) == 2
+           and all(isinstance(e, ast.Name) for e in loop.target.elts) and isinstance(loop.iter, ast.Call)
+           and isinstance(loop.iter.func, ast.Attribute) and loop.iter.func.attr == "items"
+           and is_name(loop.iter.func.value, "opts") and not loop.orelse, "for <opt>, <prob> in opts.items()")
+    v_opt, v_prob = (e.id for e in loop.target.elts)
+    is_prob = lambda n: is_name(n, v_prob)
+    st = loop.body
+    expect(len(st) == 5, "weight loop: type test, negative test, skip test, two appends")
+    ty, neg, skip, a1, a2 = st
+    expect(isinstance(ty, ast.If) and not ty.orelse and isinstance(ty.test, ast.UnaryOp) and isinstance(ty.test.op, ast.Not)
+           and _call_name(ty.test.operand) == "isinstance" and is_prob(ty.test.operand.args[0])
+           and len(ty.body) == 1 and isinstance(ty.body[0], ast.Raise) and _call_name(ty.body[0].exc) == "TypeError",
+           "type test: if not isinstance(<prob>, ...): raise TypeError")
+    expect(isinstance(neg, ast.If) and not neg.orelse and len(neg.body) == 1 and isinstance(neg.body[0], ast.Raise)
+           and _call_name(neg.body[0].exc) == "ValueError", "negative test: if <prob> < 0: raise ValueError")
+    neg_cmp, neg_k = _cmp_const(neg.test, is_prob, "negative test compares the weight with a constant")
+    expect(isinstance(skip, ast.If) and not skip.orelse and len(skip.body) == 1 and isinstance(skip.body[0], ast.Continue),
+           "skip test: if <prob> == 0: continue")
+    skip_cmp, skip_k = _cmp_const(skip.test, is_prob, "skip test compares the weight with a constant")
+
+    def appends(s, lst, var):
+        return (isinstance(s, ast.Expr) and isinstance(s.value, ast.Call) and isinstance(s.value.func, ast.Attribute)
+                and s.value.func.attr == "append" and is_name(s.value.func.value, lst) and len(s.value.args) == 1
+                and is_name(s.value.args[0], var))
+    pair = {("options", v_opt), ("weights", v_prob)}
+    got = set()
+    for s in (a1, a2):
+        for lst, var in pair:
+            if appends(s, lst, var):
+                got.add((lst, var))
+    expect(got == pair, "options.append(<opt>) and weights.append(<prob>)")
+    inits = [s for s in br.body if isinstance(s, ast.Assign) and isinstance(s.targets[0], ast.Tuple)
+             and [getattr(e, "id", None) for e in s.targets[0].elts] == ["options", "weights"]]
+    expect(len(inits) == 1 and br.body.index(inits[0]) < br.body.index(loop), "options, weights = [], [] before the loop")
+    # the empty test, before the selector is made
+    empty = None
+    for i, s in enumerate(body[1:], 1):
+        if isinstance(s, ast.If) and len(s.body) == 1 and isinstance(s.body[0], ast.Raise) \
+                and _call_name(s.body[0].exc) == "RejectionException":
+            empty = s
+            expect(any(isinstance(t, ast.Assign) and is_name(t.targets[0], "index") for t in body[i + 1:]),
+                   "empty test comes before the selector")
+    expect(empty is not None and not empty.orelse, "if len(options) == 0: raise RejectionException")
+    e_cmp, e_k = _cmp_const(empty.test, lambda n: _call_name(n) == "len" and len(n.args) == 1 and is_name(n.args[0], "options"),
+                            "empty test compares len(options) with a constant")
+    # Options.clone rebuilds from the kept weights (or the options when unweighted)
+    cl = body_nodoc(get_def(tree, "Options.clone", DIST))
+    expect(len(cl) == 1 and isinstance(cl[0], ast.Return) and isinstance(cl[0].value, ast.Call) and len(cl[0].value.args) == 1
+           and _call_name(cl[0].value.func) == "type" and isinstance(cl[0].value.args[0], ast.IfExp)
+           and _is_attr(cl[0].value.args[0].test, "self", "optWeights") and _is_attr(cl[0].value.args[0].body, "self", "optWeights")
+           and _is_attr(cl[0].value.args[0].orelse, "self", "options"),
+           "Options.clone: return type(self)(self.optWeights if self.optWeights else self.options)")
+    ow = [s for s in br.body if isinstance(s, ast.Assign) and _is_attr(s.targets[0], "self", "optWeights")]
+    expect(len(ow) == 1 and _call_name(ow[0].value) == "dict" and _call_name(ow[0].value.args[0]) == "zip"
+           and [getattr(a, "id", None) for a in ow[0].value.args[0].args] == ["options", "weights"]
+           and br.body.index(ow[0]) > br.body.index(loop), "self.optWeights = dict(zip(options, weights)) after the loop")
+    return {"negCmp": neg_cmp, "negConst": neg_k, "skipCmp": skip_cmp, "skipConst": skip_k, "emptyCmp": e_cmp, "emptyConst": e_k}
+
+
+OPT_REFERENCE = {"negCmp": "lt", "negConst": 0, "skipCmp": "eq", "skipConst": 0, "emptyCmp": "eq", "emptyConst": 0}
+
+
+def extract_opt():
+    _, dist = load(DIST)
+    return extract_options_build(dist)
+
+
+def to_lean_opt(d):
+    return f"""import ScenicModel.Model.SamplerOptions
+namespace Scenic.Gen
+open Scenic.Sampler
+/-- constants of the dict branch of `Options.__init__` (distributions.py) -/
+def optCfg : OptCfg :=
+  {{ negCmp := .{d['negCmp']}, negConst := {_int(d['negConst'])}, skipCmp := .{d['skipCmp']}, skipConst := {_int(d['skipConst'])},
+    emptyCmp := .{d['emptyCmp']}, emptyConst := {_int(d['emptyConst'])} }}
+end Scenic.Gen
+"""
+
+
 def extract_uniform(tree):
     init = get_def(tree, "UniformDistribution.__init__", DIST)
     sel = None
